@@ -1,4 +1,5 @@
-(** C14 -- the array data frame round trip for regular single-slice triangles:
+(** C14 -- the array data frame round trip for regular single-slice triangles, UNBOUNDED version of
+    Proofs/MatrixIxArr.v (calendar side conditions are lower bounds MINID <= id only):
     to_array groups the cells of a row-structured triangle into the rows of the frame,
     from_array turns them back into the same cells.
       to_array_rows          to_array (cells_of_rows ..) = Ok (array_of_rows rows)
@@ -8,7 +9,7 @@
       infer_resolution_rows  period_resolution=None reads the resolution off the first two rows *)
 From Coq Require Import ZArith List Bool Lia ZifyBool Permutation.
 From Bermuda Require Import Model.Base Lib.Calendar Model.Frame Model.MatrixIx.
-From Bermuda Require Import Proofs.FrameLib Proofs.MatrixIxP.
+From Bermuda Require Import Proofs.FrameLib Proofs.MatrixIxU.
 Import ListNotations.
 Local Open Scope Z_scope.
 
@@ -22,10 +23,10 @@ Definition cells_of_row (f : str) (m : meta) (res : Z) (r : Z * list (Z * num)) 
 Definition cells_of_rows (f : str) (m : meta) (res : Z) (rows : list (Z * list (Z * num))) : list cell :=
   flat_map (cells_of_row f m res) rows.
 
-(* period and every evaluation month of the row inside 1970-2100 *)
+(* period start, period end and every evaluation month of the row not before 0001-01 *)
 Definition row_ok (res : Z) (r : Z * list (Z * num)) : Prop :=
-  0 <= fst r <= 1571 /\ 0 <= fst r + res - 1 /\ fst r + res <= 1571 /\
-  Forall (fun lx => 0 <= fst r + res - 1 + fst lx <= 1571) (snd r).
+  MINID <= fst r /\ MINID <= fst r + res - 1 /\
+  Forall (fun lx => MINID <= fst r + res - 1 + fst lx) (snd r).
 Definition rows_ok (res : Z) (rows : list (Z * list (Z * num))) : Prop :=
   NoDup (map fst rows) /\
   forall r, In r rows -> snd r <> [] /\ NoDup (map fst (snd r)) /\ row_ok res r.
@@ -111,18 +112,17 @@ Proof.
     apply NoDup_map_inj_in; [|exact Hnd].
     intros a b Ha Hb E. injection E as E _.
     apply in_map_iff in Ha, Hb. destruct Ha as [ra [<- Hra]], Hb as [rb [<- Hrb]].
-    destruct (Hrows ra Hra) as (_ & _ & Ha & _). destruct (Hrows rb Hrb) as (_ & _ & Hb & _).
     apply month_start_inj; assumption.
 Qed.
 
 Lemma cell_lag_acell f m res s lag v :
-  0 <= s + res - 1 <= 1571 -> 0 <= s + res - 1 + lag <= 1571 -> cell_lag (acell f m res s lag v) = lag.
-Proof. intros H1 H2. unfold cell_lag, acell. cbn [pe ev]. rewrite lag_months_ends by lia. lia. Qed.
+  MINID <= s + res - 1 -> MINID <= s + res - 1 + lag -> cell_lag (acell f m res s lag v) = lag.
+Proof. intros H1 H2. unfold cell_lag, acell. cbn [pe ev]. rewrite lag_months_ends by assumption. lia. Qed.
 
 Lemma map_cell_lag_row f m res r : row_ok res r ->
   map cell_lag (cells_of_row f m res r) = map fst (snd r).
 Proof.
-  intros (Hs & Hpe & Hn & HF). unfold cells_of_row. rewrite map_map. apply map_ext_in.
+  intros (Hs & Hpe & HF). unfold cells_of_row. rewrite map_map. apply map_ext_in.
   intros lx Hlx. rewrite Forall_forall in HF. apply cell_lag_acell; [lia|apply HF; exact Hlx].
 Qed.
 
@@ -145,7 +145,7 @@ Lemma filter_cell_lag_row f m res r h : row_ok res r ->
   filter (fun c => cell_lag c =? h) (cells_of_row f m res r)
   = map (fun lx => acell f m res (fst r) (fst lx) (VNum (snd lx))) (filter (fun lx => fst lx =? h) (snd r)).
 Proof.
-  intros (Hs & Hpe & Hn & HF). unfold cells_of_row. rewrite Forall_forall in HF.
+  intros (Hs & Hpe & HF). unfold cells_of_row. rewrite Forall_forall in HF.
   induction (snd r) as [|lx l IH]; [reflexivity|]. cbn [map filter].
   rewrite cell_lag_acell by (try lia; apply HF; left; reflexivity).
   rewrite IH by (intros x Hx; apply HF; right; exact Hx).
@@ -182,18 +182,17 @@ Qed.
 (* ====================================================================================== *)
 (** * from_array on the frame built by to_array *)
 
-(* from_array_row_opt with the range condition only where an entry is present *)
+(* from_array_row_opt again (no condition on the lags is needed any more) *)
 Lemma from_array_row_sparse : forall f m res s lags (ovals : list (option Z)),
-  0 <= s <= 1571 -> 0 <= s + res - 1 -> s + res <= 1571 ->
-  (forall lag x, In (lag, Some x) (combine lags ovals) -> 0 <= s + res - 1 + lag <= 1571) ->
+  MINID <= s -> MINID <= s + res - 1 ->
   from_array (mkAF lags [(month_start s, ovals)]) f res m
   = arow_cells_opt f m res s (combine lags ovals).
 Proof.
-  intros f m res s lags ovals Hs Hpe Hn Hr.
+  intros f m res s lags ovals Hs Hpe.
   unfold from_array, arow_cells_opt. cbn [af_rows af_lags flat_map fst snd]. rewrite app_nil_r.
-  rewrite (addm_start_pred_is_end s res) by lia.
+  rewrite (addm_start_pred_is_end s res) by exact Hs.
   apply flat_map_ext_in'. intros [lag [x|]] Hin; cbn [fst snd]; [|reflexivity].
-  rewrite addm_month_end by (try lia; apply (Hr lag x Hin)). reflexivity.
+  rewrite addm_month_end by exact Hpe. reflexivity.
 Qed.
 
 Lemma from_array_map_rows : forall {R} (g : R -> date * list (option Z)) lags (rows : list R) f res m,
@@ -240,13 +239,9 @@ Lemma from_array_row_of f m res rows r : In r rows -> NoDup (map fst (snd r)) ->
                        | None => []
                        end) (header_of rows).
 Proof.
-  intros Hr Hnd (Hs & Hpe & Hn & HF).
+  intros Hr Hnd (Hs & Hpe & HF).
   rewrite from_array_row_sparse; try assumption.
-  - unfold arow_cells_opt. rewrite combine_map_self, flat_map_map'. reflexivity.
-  - intros lag x Hin. rewrite combine_map_self in Hin. apply in_map_iff in Hin.
-    destruct Hin as [h [E _]]. inversion E; subst.
-    destruct (entry_of_some _ _ _ H1) as [lx [Hlx [Hh _]]].
-    rewrite Forall_forall in HF. rewrite <- Hh. apply HF. exact Hlx.
+  unfold arow_cells_opt. rewrite combine_map_self, flat_map_map'. reflexivity.
 Qed.
 
 Lemma row_cells_perm f m res rows r : In r rows -> NoDup (map fst (snd r)) ->
@@ -311,11 +306,11 @@ Qed.
 
 (* period_resolution=None: the resolution is read off the first two period starts *)
 Theorem infer_resolution_rows : forall res r0 r1 rows,
-  0 <= fst r0 <= 1571 -> 0 <= fst r1 <= 1571 -> fst r1 - fst r0 = res ->
+  MINID <= fst r0 -> MINID <= fst r1 -> fst r1 - fst r0 = res ->
   infer_resolution (array_of_rows (r0 :: r1 :: rows)) = Ok res.
 Proof.
   intros res r0 r1 rows H0 H1 E. unfold infer_resolution, array_of_rows. cbn [af_rows map fst].
-  rewrite !month_id_start by lia. rewrite E. reflexivity.
+  rewrite !month_id_start by assumption. rewrite E. reflexivity.
 Qed.
 
 (* ====================================================================================== *)
@@ -501,7 +496,36 @@ Proof.
   apply (array_round_trip_eq f m res rows Hres Hok (prefix_rows_ordered L rows HL Hp)).
 Qed.
 
+(* ====================================================================================== *)
+(** * Refusals of to_array *)
+
+(* more than one slice: ValueError (whatever the cells are) *)
+Theorem to_array_refuses_multi_slice : forall t f, t <> [] ->
+  (exists a b, In a t /\ In b t /\ meta_seqb (cmeta a) (cmeta b) = false) ->
+  to_array t f = Err ValueError.
+Proof.
+  intros t f Hne (a & b & Ha & Hb & Hab). unfold to_array.
+  assert (Ia : In (cmeta a) (dedup meta_seqb (map cmeta t)))
+    by (apply (dedup_in meta_seqb mx_meta_seqb_eq); apply in_map; exact Ha).
+  assert (Ib : In (cmeta b) (dedup meta_seqb (map cmeta t)))
+    by (apply (dedup_in meta_seqb mx_meta_seqb_eq); apply in_map; exact Hb).
+  assert (Hlen : Nat.eqb (List.length (dedup meta_seqb (map cmeta t))) 1 = false).
+  { destruct (dedup meta_seqb (map cmeta t)) as [|x [|y l]]; [contradiction| |reflexivity].
+    exfalso. destruct Ia as [Ea|[]]. destruct Ib as [Eb|[]].
+    rewrite <- Ea, <- Eb, (proj2 (mx_meta_seqb_eq x x) eq_refl) in Hab. discriminate. }
+  rewrite Hlen. destruct t as [|c r]; [congruence|]. reflexivity.
+Qed.
+
+(* an incremental triangle (first cell incremental): ValueError, from the slice test or, when the
+   triangle has a single slice, from the `is_incremental` test -- no slice hypothesis is needed *)
+Theorem to_array_refuses_incremental : forall t f c r, t = c :: r -> is_inc c = true ->
+  to_array t f = Err ValueError.
+Proof.
+  intros t f c r -> Hc. unfold to_array.
+  destruct (negb (Nat.eqb (List.length (dedup meta_seqb (map cmeta (c :: r)))) 1)
+            && negb (Nat.eqb (List.length (c :: r)) 0)); [reflexivity|].
+  unfold tri_is_inc. rewrite Hc. reflexivity.
+Qed.
+
 (* NOT PROVED (array frame):
-   - triangles with several slices or an incremental triangle are rejected by to_array (Err ValueError);
-     that error path is not stated here;
    - cells holding more fields than `f` (to_array keeps only `f`, so the round trip drops the others). *)
